@@ -118,6 +118,7 @@ static void c11_gap_drill(Buf *b) {
 
 #include "scen_c11_obj.h"
 static void scen_c11(int histories, int maxops) {
+    g_tpm2_statics = 1;   /* a resume or power cycle starts from the load-time image of the library's globals, as in a new process */
     Buf b = {0};
     for (int h = 0; h < histories; h++) {
         tr("hist %d", h);
